@@ -906,6 +906,16 @@ variant('b-parser-ignored-frame-not-consumed', ['C04'], FP,
         "                if new_frame is not None:\n                    yield new_frame\n",
         "                if new_frame is None:\n                    total -= length + frame_length_byte_count\n                    continue\n                yield new_frame\n",
         ('C04.a', 'one frame extent everywhere'))
+_LEN_OLD = "                length = struct.unpack('>I', b'\\x00' + self._buffer[:frame_length_byte_count])[0]"
+_LEN_NEW = "                length = unpack_24bit(self._buffer, 0)"
+_IMP_OLD = "from rsocket.frame import Frame, InvalidFrame, parse_or_ignore\n"
+_IMP_NEW = "from rsocket.frame import Frame, InvalidFrame, parse_or_ignore\nfrom rsocket.frame_helpers import unpack_24bit\n"
+variant_multi('t-parser-length-through-helper', ['C04', 'C12'], [(FP, _LEN_OLD, _LEN_NEW), (FP, _IMP_OLD, _IMP_NEW)],
+              kind='twin')
+variant_multi('b-parser-length-needs-four-bytes', ['C04'], [
+    (FP, _LEN_OLD, "                length = unpack_32bit(self._buffer, 0) >> 8"),
+    (FP, _IMP_OLD, "from rsocket.frame import Frame, InvalidFrame, parse_or_ignore\nfrom rsocket.frame_helpers import unpack_32bit\n")],
+    ('C04.c', 'length from the 3-byte big-endian prefix'))
 variant('t-parser-named-extent', ['C04', 'C12'], FP,
         """            if total < length + frame_length_byte_count:
                 return
@@ -1660,6 +1670,13 @@ variant('t-channel-dispose-notifies-after-cancelling', ['C11'], H + 'request_cah
         "            self.subscriber.subscription.cancel()\n\n    def _complete_remote_subscriber(self):",
         "            self.subscriber.subscription.cancel()\n        logger().debug('disposed')\n\n    def _complete_remote_subscriber(self):",
         kind='twin')
+variant('b-fragmentable-predicate-by-base-class', ['C03', 'C06'], F,
+        "    return isinstance(frame, (\n        PayloadFrame,\n        RequestResponseFrame,\n        RequestChannelFrame,\n        RequestStreamFrame,\n        RequestFireAndForgetFrame\n    ))",
+        "    return isinstance(frame, (PayloadFrame, RequestFrame))", ('C03.c', 'is_fragmentable_frame'))
+variant('b-request-builder-rejects-after-registration', ['C10'], 'rsocket/frame_builders.py',
+        "    request = RequestStreamFrame()\n    request.initial_request_n = initial_request_n\n",
+        "    if not 0 < initial_request_n <= MAX_REQUEST_N:\n        raise ValueError('initial request N out of range')\n    request = RequestStreamFrame()\n    request.initial_request_n = initial_request_n\n",
+        ('C10.a', 'a rejection releases the stream id'))
 variant('b-send-error-noop', ['C12'], RB,
         "        self.send_frame(exception_to_error_frame(stream_id, exception))",
         "        logger().error('error on stream %s: %s', stream_id, exception)", ('C12.b', 'RSocketBase.send_error'))
